@@ -3,8 +3,8 @@ NA['C08'] = 'same as C04: run histories through Evolver/ORM (Version, Evolution 
 NA['C10'] = 'same as C04: needs Django migration loader/executor/recorder end to end, untraceable and with only discrete scenario choices (DESIGN.md section 6)'
 
 check('C09',
-      'Bounded model checking of the real DependencyGraph code: CrossHair explores every path of add_node/add_dependency/finalize/get_ordered with the whole edge relation symbolic; exhaustive for all digraphs on <=4 nodes (quick) / 5 nodes as far as the budget reaches (thorough). Acyclic => order is a permutation honouring every edge; cyclic => exception.',
-      'Trusted: CrossHair+z3, the Kahn oracle in harness/c09.py. Outside: signal order during a real evolve(), Django migration planner, graphs beyond the bound.',
+      'Bounded model checking of the real DependencyGraph code: CrossHair explores every path of add_node/add_dependency/finalize/get_ordered with the whole edge relation symbolic; exhaustive for all digraphs on <=4 nodes (quick) / 5 nodes as far as the budget reaches (thorough). Acyclic => order is a permutation honouring every edge; cyclic => exception. Plus EvolutionGraph (add_evolutions, mark_evolutions_applied, iter_batches, get_evolution_dependencies, get_evolution_app_dependencies) over three fake apps with symbolic evolution counts, applied prefixes, one before/after declaration at evolution or app level and both registration orders: every pending evolution exactly once, sequence order and the declared requirement honoured.',
+      'Trusted: CrossHair+z3, the Kahn oracle in harness/c09.py. Outside: signal order during a real evolve(), migrations in the graph (add_migration_plan) and Django migration planner, graphs beyond the bound. Fake app modules; importlib untraced.',
       'CrossHair symbolic execution (z3) of utils/graph.py, partitioned, counterexamples replayed concretely',
       design_ref='5.7')
 
@@ -33,7 +33,7 @@ check('C07',
       design_ref='5.6')
 
 check('C18',
-      'Merge-decision kernel: (a) z3 query over the mergeable_ops table and the dispatcher op types re-extracted with ast from db/common.py on every run (no pair of add/change/delete/meta op types may be rejected; no table entry may be unknown to the dispatcher); (b) bounded model checking of the real generate_table_ops_sql/_are_ops_mergeable over all op-type sequences of length <=4 with recording op builders: each maximal run of mergeable ops shares one AlterTableSQLResult.',
+      'Merge-decision kernel: (a) z3 query over the mergeable_ops table and the dispatcher op types re-extracted with ast from db/common.py on every run (no pair of add/change/delete/meta op types may be rejected; no table entry may be unknown to the dispatcher); (b) bounded model checking of the real generate_table_ops_sql/_are_ops_mergeable over all op-type sequences of length <=4 with recording op builders: each maximal run of mergeable ops shares one AlterTableSQLResult; (c) the real AppMutator/ModelMutator/SQLite evolver rebuild each table at most once for any sequence of 2-3 mergeable mutations over two models.',
       'Per-op SQL builders and the AlterTableSQLResult class are recording stand-ins; rebuild counts on real SQL traces and the optimiser regrouping are not part of this claim (see C03 and the C01/C02 engine). Trusted: CrossHair+z3, ast extraction.',
       'z3 on the source-extracted mergeable_ops table + CrossHair symbolic execution (z3) of generate_table_ops_sql with symbolic op sequences',
       design_ref='5.15')
